@@ -30,6 +30,17 @@ Theorem C02_workflow_compatible_partial : forall n m w, In (n, m, w) wf_table ->
   forall s s' k, In s (c02_pre m) -> wsem (m_cfg m) w s s' k -> c02_post m s' = true.
 Proof. exact c02_workflow_partial. Qed.
 
+(* what "relative to the contracts" means: for ANY concrete semantics [cexec] that refines the abstract one
+   (every leaf meets its contract of wf/Contracts.v, control passes and predicates behave as modelled) and any
+   reading [executable] implied by the abstract postcondition, every output is executable *)
+Theorem C02_full_from_contracts : forall (conc : Type) (alpha : conc -> astate)
+  (cexec : config -> pass -> conc -> conc -> Prop) (executable : conc -> Prop),
+  (forall c w x x', cexec c w x x' -> exists k, wsem c w (alpha x) (alpha x') k) ->
+  (forall x', c02_post_full (alpha x') = true -> executable x') ->
+  forall n m w, In (n, m, w) wf_table -> c02_exns m = [] ->
+  forall x x', In (alpha x) (full_pre m) -> cexec (m_cfg m) w x x' -> executable x'.
+Proof. exact c02_full_from_contracts. Qed.
+
 (* the same through the executable semantics: whatever trace of outcomes is replayed *)
 Theorem C02_checker_sound : forall c w pre post, wf_establishes c w pre post = true ->
   forall s outcomes s' k, In s pre -> run c w outcomes s = Some (s', k) -> post s' = true.
